@@ -276,6 +276,14 @@ def run(res, info):
     with quiet():
         net = Network(filelist=str(fw.REPO / "tests/data/minimal.kida"), fileformats="kida")
     export_cli(res, net, "tests/data/minimal.kida")
+    # ... and on a network whose rate modifiers switch one reaction off with the number 0.0 and replace another
+    reset_globals()
+    with quiet():
+        net = Network(filelist=str(fw.REPO / "tests/data/minimal.kida"), fileformats="kida")
+        idxs = [r.idxfromfile for r in net.reaction_list]
+        net = Network(filelist=str(fw.REPO / "tests/data/minimal.kida"), fileformats="kida",
+                      rate_modifier={idxs[0]: 0.0, idxs[-1]: "1.0e-12 * sqrt(Tgas)"})
+    export_cli(res, net, "tests/data/minimal.kida with rate modifiers {first: 0.0, last: expression}")
     if model:
         model.close()
 
